@@ -112,6 +112,14 @@ Definition run_body (T : exit_tables) (w : world) : outcome :=
       else Exit 0 RNone
   end.
 
+(** What the target tree contains (no file at all, only sub-directories, only files no codemod looks at, symlinks,
+    undecodable files, a deep tree ...) is NOT an oracle of the chain: no guard and no modelled operation consults it.
+    The shape is therefore a parameter that [run_exit_in] ignores; the correspondence run varies it for real
+    (harness/c20.py TREE_SHAPES) and measures that status and report do not depend on it.  One coupling exists and is
+    part of the meaning of [w_bad_line]: the non-integer `path:line` item must match a processed file to raise. *)
+Inductive tree_shape :=
+| OneFile | EmptyDir | DirsOnly | NonPythonOnly | ExcludedOnly | SymlinkOnly | DanglingSymlink | UnreadableFiles | DeepTree | ManyFiles.
+
 Definition run_exit (T : exit_tables) (w : world) : outcome :=
   match w_argparse w with
   | ParseErr => Exit (t_argparse_code T) RNone
@@ -121,3 +129,5 @@ Definition run_exit (T : exit_tables) (w : world) : outcome :=
       else if chain_canonical (t_chain T) then run_body T w
       else Crash    (* a chain in another order is outside what the pipeline models *)
   end.
+
+Definition run_exit_in (shape : tree_shape) (T : exit_tables) (w : world) : outcome := run_exit T w.
